@@ -59,6 +59,25 @@ func ruleC12TokenWhitespace(c *Ctx) {
 					return true
 				}
 			}
+			// a local accessor (a closure or helper of the module) that hands back the token text
+			if !x.Call.IsInvoke() {
+				targets := []*ssa.Function{}
+				if sc := x.Call.StaticCallee(); sc != nil {
+					targets = append(targets, sc)
+				} else {
+					targets = p.FuncFlow().Resolve(x.Call.Value, 0)
+				}
+				for _, t := range targets {
+					if t.Blocks == nil || !inModule(t) {
+						continue
+					}
+					for _, r := range returnsOf(t) {
+						if len(r.Results) == 1 && fromText(r.Results[0], depth+1) {
+							return true
+						}
+					}
+				}
+			}
 		case *ssa.Slice:
 			return fromText(x.X, depth+1)
 		case *ssa.Convert:
